@@ -4,8 +4,12 @@ Line-protocol driver for C12: runs the *generated* process/verify on the inputs 
   VCLEAR                                             empty table                             -> ok
   P number cv nv na nvb nso                          process(prev) on a zero curr           -> ok cv nv na nvb nso | err n | crash
   X pn pcv pnv pna pnvb pnso  cn ccv cnv cna cnvb cnso   verify(prev, curr)                 -> ok | err n | crash
+  KCLEAR                                             forget the canonical headers            -> ok
+  K n cv nv na nvb nso                               append a canonical header (number = position) -> ok
+  F r | h | h …                                      VersionForRoundWithParents(r, parents)  -> ok v | noheader | unknownversion | crash
 -/
 import YouVerif.C12.Gen
+import YouVerif.C12.ModelVfr
 import YouVerif.Common.Hex
 open YouVerif.Common YouVerif.C12
 
@@ -21,7 +25,7 @@ def mkHdr : List Nat → Option Hdr
   | [n, cv, nv, na, nvb, nso] => some { number := n, currVersion := cv, nextVersion := nv, nextApprovals := na, nextVoteBefore := nvb, nextSwitchOn := nso }
   | _ => none
 
-def step (t : Table) (line : String) : Table × String :=
+def stepT (t : Table) (line : String) : Table × String :=
   match fields line with
   | "VCLEAR" :: _ => ([], "ok")
   | "V" :: rest =>
@@ -47,4 +51,29 @@ def step (t : Table) (line : String) : Table × String :=
     | none => (t, "bad-op")
   | _ => (t, "bad-op")
 
-def main : IO Unit := runLoop ([] : Table) step
+structure DSt where
+  t : Table := []
+  canon : Array Hdr := #[]
+
+def splitBar (l : List String) : List (List String) :=
+  l.foldr (fun x acc => if x == "|" then [] :: acc else match acc with
+    | [] => [[x]]
+    | a :: rest => (x :: a) :: rest) [[]]
+
+def step (s : DSt) (line : String) : DSt × String :=
+  match fields line with
+  | "KCLEAR" :: _ => ({ s with canon := #[] }, "ok")
+  | "K" :: rest =>
+    match rest.mapM nat? >>= mkHdr with
+    | some h => ({ s with canon := s.canon.push h }, "ok")
+    | none => (s, "bad-op")
+  | "F" :: rest =>
+    match splitBar rest with
+    | [r] :: ps =>
+      match nat? r, ps.mapM (fun p => p.mapM nat? >>= mkHdr) with
+      | some r, some parents => (s, (versionForRound s.t.toV (fun n => s.canon[n]?) parents r).show)
+      | _, _ => (s, "bad-op")
+    | _ => (s, "bad-op")
+  | _ => let (t, out) := stepT s.t line; ({ s with t := t }, out)
+
+def main : IO Unit := runLoop ({} : DSt) step
